@@ -1224,15 +1224,42 @@ fn oracle_c11(t: &LspTrace, h: &History, stats: &mut Stats) -> Vec<Violation> {
                                 secondary_codes.push((d.code.clone(), acceptable));
                             }
                         }
-                        // anything else published must be a check diagnostic that only touches this file with a secondary label
+                        // anything else published must be a check diagnostic that only touches this file with a
+                        // secondary label. Several of those may carry the same code (one P0019 per declaration
+                        // of a name, say): what was published is matched one-to-one with them, a published item
+                        // fitting an entry if the entry has no known position or lists the item's position.
                         let mut extras = vec![];
                         let mut misplaced = vec![];
-                        for p in &pubset {
+                        let fits = |p: &(String, u64, u64), e: &(String, Vec<Pos>)| e.0 == p.0 && (e.1.is_empty() || e.1.contains(&(p.1, p.2)));
+                        // a maximum matching between published items and entries (augmenting paths; the
+                        // sets are small): only what cannot be matched at all is reported
+                        let n_items = pubset.len();
+                        let adj: Vec<Vec<usize>> = pubset.iter().map(|p| secondary_codes.iter().enumerate().filter(|(_, e)| fits(p, e)).map(|(i, _)| i).collect()).collect();
+                        let mut entry_of: Vec<Option<usize>> = vec![None; secondary_codes.len()]; // entry -> item
+                        fn augment(item: usize, adj: &[Vec<usize>], entry_of: &mut [Option<usize>], seen: &mut [bool]) -> bool {
+                            for &e in &adj[item] {
+                                if seen[e] {
+                                    continue;
+                                }
+                                seen[e] = true;
+                                if entry_of[e].is_none() || augment(entry_of[e].unwrap(), adj, entry_of, seen) {
+                                    entry_of[e] = Some(item);
+                                    return true;
+                                }
+                            }
+                            false
+                        }
+                        for item in 0..n_items {
+                            let mut seen = vec![false; secondary_codes.len()];
+                            augment(item, &adj, &mut entry_of, &mut seen);
+                        }
+                        let matched_items: Vec<usize> = entry_of.iter().flatten().copied().collect();
+                        let left: Vec<(String, u64, u64)> = pubset.iter().enumerate().filter(|(i, _)| !matched_items.contains(i)).map(|(_, p)| p.clone()).collect();
+                        let mut secondary_codes: Vec<(String, Vec<Pos>)> = secondary_codes.into_iter().enumerate().filter(|(i, _)| entry_of[*i].is_none()).map(|(_, e)| e).collect();
+                        for p in &left {
                             if let Some(i) = secondary_codes.iter().position(|c| c.0 == p.0) {
                                 let (_, acceptable) = secondary_codes.remove(i);
-                                if !acceptable.is_empty() && !acceptable.contains(&(p.1, p.2)) {
-                                    misplaced.push((p.clone(), acceptable));
-                                }
+                                misplaced.push((p.clone(), acceptable));
                             } else {
                                 extras.push(p.clone());
                             }
@@ -1257,7 +1284,7 @@ fn oracle_c11(t: &LspTrace, h: &History, stats: &mut Stats) -> Vec<Violation> {
                         out.push(viol(
                             "C11",
                             format!("C11/check-position-mismatch/{}", misplaced[0].0 .0),
-                            format!("for {base}: the server publishes {:?} for a problem whose primary label is in another document; `check` places that problem at one of {:?} (primary label in its file / secondary label in this file)", misplaced[0].0, misplaced[0].1),
+                            format!("for {base}: the server publishes {:?} for a problem whose primary label is in another document; `check` places that problem at one of {:?} (primary label in its file / secondary label in this file); published = {:?}; check reported {:?}", misplaced[0].0, misplaced[0].1, pubset_all, diags.iter().map(|d| (d.code.clone(), base_name(&d.primary.file).to_string(), d.primary.start, d.secondary.iter().map(|l| (base_name(&l.file).to_string(), l.start)).collect::<Vec<_>>())).collect::<Vec<_>>()),
                         ));
                     }
                     if !missing.is_empty() || !extras.is_empty() {
